@@ -471,3 +471,82 @@ Proof.
 Qed.
 
 End CGEnergy.
+
+(* ---------------------------------------------------------------- the solver as a whole *)
+Section CGSolver.
+Context {A : SArith}.
+Notation F := (T (SA A)).
+Variable FL : FieldLaws (SA A).
+Variables (n : nat) (mulA : list F -> res (list F)).
+Hypothesis LO : LinOp n mulA.
+Hypothesis SYM : SymOp n mulA.
+
+Lemma cg_hist_ge body s0 i s R P : @cg_hist A body s0 i s R P -> 1 <= i.
+Proof. induction 1; lia. Qed.
+Lemma cg_hist_one body s0 s R P : @cg_hist A body s0 1 s R P -> s = s0.
+Proof.
+  intros H. remember 1 as i eqn:Ei. destruct H as [|i s s' R P Hh Eb]; auto.
+  apply cg_hist_ge in Hh. lia.
+Qed.
+(* the initial residual stays in the history *)
+Lemma cg_hist_first_in body s0 i s R P : @cg_hist A body s0 i s R P -> 2 <= i -> In (cg_r s0) R.
+Proof.
+  induction 1 as [|i s s' R P Hh IH Eb]; intros Hi; [lia|].
+  destruct (Nat.eq_dec i 1) as [->|Hne].
+  - apply cg_hist_one in Hh. subst s. now left.
+  - right. apply IH. apply cg_hist_ge in Hh. lia.
+Qed.
+
+(* solve_cg either accepts the guess at once or is its loop started from (x0, r0 = b - A x0) *)
+Lemma solve_cg_inv cols (b x0 : list F) max tol o :
+  solve_cg mulA n cols b x0 max tol = Ok o ->
+  exists ax resid, length b = n /\ length x0 = n /\ mulA x0 = Ok ax /\ length (zipw sub b ax) = n /\
+    ((exists X, o = (IOk 0, x0, mkG (zipw sub b ax) X 0)) \/
+     iloop (cg_body mulA n tol (nz (norm2 b))) cg_final max 1
+           (mkCG x0 (zipw sub b ax) (zeros n) (zeros n) one resid (trace0 x0 resid tol)) = Ok o).
+Proof.
+  unfold solve_cg. intros H.
+  apply bind_ok in H as (u & Hg & H). apply guards_Ok in Hg as (Hb & Hc & Hx).
+  apply bind_ok in H as (ax & Eax & H). apply bind_ok in H as (r0 & Er & H).
+  apply bind_ok in H as (resid & Ed & H). cbv zeta in H.
+  apply vsub_Ok in Er as (Hl & ->).
+  exists ax, resid. split; [lia|]. split; [lia|]. split; auto. split; [rewrite zipw_length; lia|].
+  destruct (leb resid tol).
+  - left. injection H as <-. eauto.
+  - right. exact H.
+Qed.
+
+(* whenever at least one iteration was performed, the final residual -- which is the true residual b - A x
+   (residual_invariant_cg) -- is orthogonal to the initial residual b - A x0, whether the answer is Ok or Err *)
+Theorem solve_cg_residual_orth_initial cols (b x0 : list F) max tol res x g :
+  solve_cg mulA n cols b x0 max tol = Ok (res, x, g) ->
+  g_exit g = 1 \/ (g_exit g = 2 /\ 1 <= max) ->
+  exists ax0, mulA x0 = Ok ax0 /\ dot_raw (g_t g) (zipw sub b ax0) = zero.
+Proof.
+  intros H Hex. destruct (solve_cg_inv _ _ _ _ _ _ H) as (ax & resid & Hb & Hx & Eax & Hr0 & [(X & E)|Hloop]).
+  { injection E as _ _ ->. cbn in Hex. destruct Hex as [Hex|(Hex & _)]; discriminate Hex. }
+  exists ax. split; auto.
+  set (s0 := mkCG x0 (zipw sub b ax) (zeros n) (zeros n) one resid (trace0 x0 resid tol)) in *.
+  set (bd := cg_body mulA n tol (nz (norm2 b))) in *.
+  assert (Hl0 : cg_lens n s0).
+  { unfold cg_lens, s0; cbn. repeat split; auto; apply zeros_length. }
+  apply iloop_reach in Hloop as [(i & s & Hi & Hr & Eb)|(s & Hr & E)].
+  - apply reaches_cg_hist in Hr as (R & P & Hh).
+    destruct res as [k|e].
+    2:{ exfalso. pose proof (cg_hist_inv FL n mulA LO SYM tol _ s0 i s R P Hl0 Hh) as HI.
+        destruct (cg_body_post FL n mulA LO SYM tol _ s0 i s R P _ HI Eb) as (x' & r' & p & rho & rs & X & _ & _ & _ & Eo).
+        destruct (leb rs tol); discriminate Eo. }
+    destruct (cg_return_conjugacy FL n mulA LO SYM tol _ s0 i s R P k x g Hl0 Hh Eb) as (_ & Ho & _).
+    apply FOP_cons_inv in Ho as (Ho & _). rewrite Forall_forall in Ho. apply Ho.
+    destruct (Nat.eq_dec i 1) as [->|Hne].
+    + apply cg_hist_one in Hh. subst s. now left.
+    + right. change (zipw sub b ax) with (cg_r s0). eapply cg_hist_first_in; eauto. lia.
+  - unfold cg_final in E. injection E as -> -> ->. cbn [g_t g_exit] in *.
+    destruct Hex as [Hex|(_ & Hmax)]; [discriminate Hex|].
+    apply reaches_cg_hist in Hr as (R & P & Hh).
+    destruct (cg_hist_conjugacy FL n mulA LO SYM tol _ s0 _ s R P Hl0 Hh) as (Ho & _).
+    apply FOP_cons_inv in Ho as (Ho & _). rewrite Forall_forall in Ho. apply Ho.
+    change (zipw sub b ax) with (cg_r s0). eapply cg_hist_first_in; eauto. lia.
+Qed.
+
+End CGSolver.
